@@ -60,6 +60,11 @@ def requests(tier, rng):
         seed = R(64)
         for s in SETS:
             L.append("poly::%s::challenge %s" % (s, hx(seed)))
+    # boundary-seeking: streams for which the eta = 4 sampler needs a THIRD SHAKE-256 block (about 1 in 10^5) --
+    # found by searching with hashlib, then given to model and code
+    for (seed, nonce) in S.find_eta_seeds(4, 2, rng, want=(2 if tier == "quick" else 8)):
+        for s in ("lvl3", "ml_dsa_65"):
+            L.append("poly::%s::uniform_eta %s %d" % (s, hx(seed), nonce))
     for lv in ("lvl2", "lvl3", "lvl5"):
         for _ in range(1 if tier == "quick" else 6):
             seed = R(64)
